@@ -66,8 +66,14 @@ CLAIMED["C04"] = ("proof", TECH,
             "construction years carry -CCap/cy, operating years = product revenues (reported prices x energy) + carbon "
             "- O&M, cumulative = running sum, NPV/IRR/VIR/MOIC of exactly the reported series at the stated rate (both "
             "conventions), non-zero IRR zeroes the NPV, payback lies in a year where the cumulative turns positive and "
-            "is 0 (N/A) otherwise. One genuine defect found and fixed (payback scan wrap-around, see known_findings.json).",
-            TRUSTED + "numpy-financial npv/irr are library axioms (A3); add-on cash flows not yet covered.",
+            "is 0 (N/A) otherwise. EconomicsAddOns.Calculate (the add-on anchor) is under contract too: add-on totals, energy "
+            "series raised once by the add-on gains, construction years carry -(CCap + add-on CAPEX)/cy, operating-year "
+            "project cash flow = energy sold x that year's price + add-on profit - add-on OPEX - O&M, both cumulative "
+            "series are running sums, NPV/IRR(in %)/VIR/MOIC of exactly the reported series, add-on payback in a year "
+            "where its cumulative turns positive. Three genuine defects found and fixed (payback scan wrap-around; add-on "
+            "energy sold twice; add-on IRR reported as a fraction under a % label - see known_findings.json).",
+            TRUSTED + "numpy-financial npv/irr are library axioms (A3); the S-DAC-GT sub-calculation and SBT / CLGS "
+            "economics subclasses are not under contract.",
             "DESIGN.md section 4 C04")
 CLAIMED["C16"] = ("proof", TECH,
             "BuildPricingModel / BuildPTCModel are proved against the documented schedule for all lifetimes, start years, "
@@ -117,19 +123,27 @@ CLAIMED.update({
             "CalculateLCOELCOHLCOC executed symbolically twice per configuration (216): all cost inputs and the "
             "electricity purchase rate x k => every levelized cost x k; sale-price parameters changed => identical "
             "levelized costs; heat output halved (the C02 postcondition of halving the end-use efficiency) => LCOH "
-            "doubled for all three economic models. Discharged by the ring normaliser over Sigma-normal forms.",
+            "doubled for all three economic models. Discharged by the ring normaliser over Sigma-normal forms. "
+            "'An add-on with zero cost and zero gains changes nothing' is a postcondition of the real "
+            "EconomicsAddOns.Calculate (energy series, CAPEX/OPEX, add-on cash flow zero, project cash flow the base "
+            "project's; 3 end-use families).",
             TRUSTED + "Not decided here: the Economics.Calculate-level scaling (correlation-based components are not "
-            "homogeneous), the strict NPV direction under price changes, and the add-on / zero-ITC / zero-grant "
-            "clauses (the latter follow from C03's proved CCap formula with the amounts set to 0).",
+            "homogeneous), the strict NPV direction under price changes; the zero-ITC / zero-grant clauses follow from "
+            "C16's proved CCap formula with the amounts set to 0.",
             "DESIGN.md section 4 C11"),
     "C18": ("proof", TECH + "; 2-safety by self-composition on the real function",
             "Second run = first run with one input increased by delta >= 0: bottom-hole temperature does not decrease "
             "with depth (1..4 segments) or with a gradient (1..2 segments); TDP reservoir temperature at every time "
             "does not increase with the drawdown rate; well cost does not decrease with depth for all 17 correlations "
             "within the declared depth range and on one side of the 500 m fallback; FCR and Standard levelized costs "
-            "do not decrease when capital cost or O&M increases (positive energy, 144 configurations).",
-            TRUSTED + "Not decided: initial production temperature vs flow (Ramey, needs an analytic lemma), NPV "
-            "monotonicity, BICYCLE levelized costs, 3/4-segment gradient monotonicity.", "DESIGN.md section 4 C18"),
+            "do not decrease when capital cost or O&M increases (positive energy, 144 configurations); total capital cost "
+            "and total O&M of the real Economics.Calculate do not decrease when any of 13 additive cost inputs rises "
+            "(self-composition on the 700-line function, 5 configurations; one recorded finding: chiller cost under a "
+            "user-fixed plant cost lowers O&M).",
+            TRUSTED + "Self-composition assumes callees under contract and array extrema are deterministic functions of "
+            "their arguments. Not decided: initial production temperature vs flow (Ramey, needs an analytic lemma), NPV "
+            "monotonicity itself (NPV is an uninterpreted library function of the series), adjustment FACTORS, BICYCLE "
+            "levelized costs, 3/4-segment gradient monotonicity.", "DESIGN.md section 4 C18"),
 })
 
 CLAIMED.update({
@@ -148,11 +162,13 @@ CLAIMED.update({
 CLAIMED.update({
     "C08": ("proof", TECH + " (effect model for process-global state) + AST frame audit",
             "Partial. Decided: (a) GeophiresXClient.get_geophires_result leaves the working directory and sys.argv as "
-            "they were on EVERY exit (normal, exception, SystemExit) and reports a failing run as RuntimeError, with "
-            "main() under the contract 'may chdir, may raise, may exit' - proved by symbolic execution with cwd/argv as "
-            "ghost state (defect found and fixed: no restore on the failure path); (c) frame audit: every write to "
-            "process-level or module-level state in the run-time packages is inside a committed allow-list, so a change "
-            "introducing a new carrier of state between runs fails a named ground obligation.",
+            "they were on EVERY exit (normal, exception, SystemExit), reports a failing run as RuntimeError, and hands out "
+            "a result only from the cache or after a run that completed (ghost flag on main()'s exits), with main() "
+            "under the contract 'may chdir, may raise, may exit with any status' - proved by symbolic execution with "
+            "cwd/argv as ghost state (defect found and fixed: no restore on the failure path); (c) frame audit: every "
+            "write to process-level or module-level state in the run-time packages (star imports resolved, e.g. "
+            "mpmath's mp context) is inside a committed allow-list, so a change introducing a new carrier of state "
+            "between runs fails a named ground obligation.",
             TRUSTED + "NOT decided (no contract within reach): numerical identity of repeated runs / other hash seeds, "
             "and cache soundness for an input file rewritten between calls (path-keyed cache, recorded as finding F6 in "
             "DESIGN.md).", "DESIGN.md section 4 C08"),
@@ -163,7 +179,8 @@ CLAIMED.update({
             "ReadParameter enforces; differently-redefined parameters stay inside a committed exemption list; the three "
             "committed JSON files equal the generated ones; result-schema categories list exactly the client's fields; "
             "every parameter of every module class Model can instantiate is listed (24 are not: recorded as known "
-            "findings, as is the rounded bound of Maximum Drawdown).",
+            "findings, as is the rounded bound of Maximum Drawdown); frame: no code re-assigns a declared bound, default "
+            "or requiredness after construction (so the reader enforces what fresh objects - the schema's source - declare).",
             "Enumeration is complete because the quantifier is a finite catalogue; the generator is NOT proved for "
             "arbitrary parameter maps (said in the evidence). Trusted: jsons serialisation, the real constructors (T5).",
             "DESIGN.md section 4 C19"),
@@ -209,10 +226,28 @@ NOT_APPLICABLE = {
 
 NOT_YET = "contracts for this property are not built yet in this round; not claimed until its obligations discharge"
 NOT_APPLICABLE.update({
-    "C20": "only the client's frame (cwd/argv restored, failures reported) is under contract and is reported under C08; "
-           "the CLI module body, the path algebra of main() and the Monte Carlo call site are not built, and equality "
-           "of reports across entry points is whole-program determinism, which no contract within reach decides",
+    "C09": "the report writer is ~600 lines of format strings written to a file inside one function: 'the printed figure "
+           "equals the computed quantity rounded to the displayed precision and carries its unit' is a statement about "
+           "formatted text (string reasoning, undecided in both solvers for this shape, see DESIGN.md section 4 C09); "
+           "what a contract could reach - index bounds and one-row-per-year of the profile loops - was not built, so "
+           "nothing is claimed",
+    "C10": "the client parses the report with regular expressions, substring matches and set.pop(): exactness of the "
+           "extraction for all reports the simulator can emit is a property of string/regex code over an unbounded "
+           "text domain, outside the VC generator's subset and undecided by the installed string solvers; a bounded "
+           "round trip over example reports would repeat what the tests sample and is not offered as a stand-in",
 })
+CLAIMED["C20"] = ("other", TECH + " on the mechanically extracted run-and-exit tail of the CLI module; main() through "
+                  "its C08 contract with exit status and 'run completed' as ghost state",
+                  "Partial. The statements of src/geophires_x/__main__.py from `rc = ...` to the end are extracted on "
+                  "every run and executed symbolically: the process exit status is 0 exactly when main() completed (an "
+                  "exception, or an exit with ANY status inside main(), ends in a non-zero status), and the working "
+                  "directory and sys.argv are restored on every way out. One genuine defect found, replayed on the real "
+                  "program and fixed (exit status 0 without a report when the simulation aborts via a bare sys.exit()). "
+                  "The client's side of the statement (failures reported, no result after a failed run) is C08's.",
+                  TRUSTED + "Dropped by the extraction and NOT decided: the argparse prefix and the rewriting of "
+                  "sys.argv[1..2] to absolute paths, relative output-file resolution in Outputs.read_parameters, the "
+                  "Monte Carlo call site, and 'the same case report' across entry points (whole-program determinism).",
+                  "DESIGN.md section 4 C20")
 
 ALL = [f"C{n:02d}" for n in range(1, 21)]
 
